@@ -64,7 +64,7 @@ def gen(tape):
             "delay": tape.choice("program", GRID, "delay"),
             "extras": [tape.choice("program", GRID + (8,), "extra-delay") for _ in range(tape.draw("program", 4, "n-extras"))],
             "selectables": tape.draw("program", 3, "n-selectables"),
-            "reentrant": tape.chance("program", 1, 8, "reentrant"),
+            "reentrant": tape.weighted("program", [(9, None), (1, "in-function"), (1, "other-spinner"), (1, "after-fire")], "reentrant"),
             "clear_junk_before": tape.chance("program", 3, 4, "clear-junk"),
             "inner": None,
             "events": [],
@@ -74,6 +74,9 @@ def gen(tape):
         for _ in range(tape.weighted("faults", [(5, 0), (3, 1), (1, 2)], "n-events")):
             spec["events"].append([tape.choice("faults", GRID, "event-time"),
                                    tape.choice("faults", ("stop", "sigint", "sigterm"), "event-kind")])
+        if tape.chance("faults", 1, 5, "stall"):
+            # clock jump: the reactor finds several timed calls due at once
+            spec["events"].append([tape.choice("faults", (0, 1, 2), "stall-at"), "stall:%d" % tape.choice("faults", (1, 2, 4, 9), "stall-by")])
         runs.append(spec)
     return pre, debug, runs
 
@@ -162,6 +165,17 @@ def _one_call(out, r, spec, pre, sim, reactor, spinner, stop_before, junk_model,
     inner_obs = {}
     called = []
 
+    def reenter(which):
+        nested = []
+        try:
+            which.run(1, lambda: nested.append(1))
+            inner_obs["reentry"] = "returned"
+        except sp.ReentryError:
+            inner_obs["reentry"] = "ReentryError"
+        except BaseException as e:   # noqa
+            inner_obs["reentry"] = type(e).__name__
+        inner_obs["nested_called"] = bool(nested)
+
     def function():
         called.append(sim.now)
         for i, d in enumerate(spec["extras"]):
@@ -170,14 +184,8 @@ def _one_call(out, r, spec, pre, sim, reactor, spinner, stop_before, junk_model,
             s = FakeSelectable(f"sel{r}.{i}")
             created["selectables"].append(s)
             reactor.addReader(s)
-        if spec["reentrant"]:
-            try:
-                spinner.run(1, lambda: None)
-                inner_obs["reentry"] = "returned"
-            except sp.ReentryError:
-                inner_obs["reentry"] = "ReentryError"
-            except BaseException as e:   # noqa
-                inner_obs["reentry"] = type(e).__name__
+        if spec["reentrant"] in ("in-function", "other-spinner"):
+            reenter(spinner if spec["reentrant"] == "in-function" else sp.Spinner(reactor))
         if spec["inner"]:
             sim.fire(spec["inner"])
         k = spec["kind"]
@@ -190,7 +198,12 @@ def _one_call(out, r, spec, pre, sim, reactor, spinner, stop_before, junk_model,
         if k == "failed":
             return defer.fail(exc)
         d = defer.Deferred()
-        if k == "later_fire":
+        if k == "later_fire" and spec["reentrant"] == "after-fire":
+            def fire_then_reenter():
+                d.callback(value)
+                reenter(spinner)     # the Deferred has fired, run() is still on the stack
+            created["fire_call"] = reactor.callLater(spec["delay"], fire_then_reenter)
+        elif k == "later_fire":
             created["fire_call"] = reactor.callLater(spec["delay"], d.callback, value)
         elif k == "later_fail":
             created["fire_call"] = reactor.callLater(spec["delay"], d.errback, exc)
@@ -225,8 +238,9 @@ def _one_call(out, r, spec, pre, sim, reactor, spinner, stop_before, junk_model,
         own = "own-value" if k in ("ret", "fired", "later_fire") else "own-exc"
         stop_int = pre["SIGINT"] == "default_int"
         times = []
+        stalled = any(kind.startswith("stall") for at, kind in spec["events"])
         for at, kind in spec["events"]:
-            if kind == "sigint" and not stop_int:
+            if kind.startswith("stall") or (kind == "sigint" and not stop_int):
                 continue
             times.append(at)
         inner_stop = spec["inner"] and (spec["inner"] != "sigint" or stop_int)
@@ -248,7 +262,12 @@ def _one_call(out, r, spec, pre, sim, reactor, spinner, stop_before, junk_model,
             if carried_stop:
                 rec["carried"] = True
             te = min(times) if times else None
-            if te is None or te > tc:
+            if stalled and te is not None:
+                # a clock jump may carry the run past a stop request and a completion together
+                allowed = set(base) | {"NoResultError"}
+                rec["rel_event"] = "stalled"
+                rec["tie"] = True
+            elif te is None or te > tc:
                 allowed = set(base)
                 rec["rel_event"] = "none" if te is None else ">"
             elif te < tc:
@@ -308,10 +327,13 @@ def _one_call(out, r, spec, pre, sim, reactor, spinner, stop_before, junk_model,
             out.violate("guard-missing", "function-called-despite-junk", f"call {r}")
         rec["junk_after"] = True
         return rec
-    if spec["reentrant"] and called and inner_obs.get("reentry") != "ReentryError":
-        out.violate("guard-missing", "reentry", f"call {r}: inner spinner.run {inner_obs.get('reentry')}")
-    if spec["reentrant"]:
-        rec["guard"] = "reentry"
+    if spec["reentrant"] and "reentry" in inner_obs:
+        rec["guard"] = "reentry:" + spec["reentrant"]
+        if inner_obs.get("nested_called") or inner_obs["reentry"] == "returned":
+            out.violate("guard-missing", "reentry:" + spec["reentrant"],
+                        f"call {r}: a nested Spinner.run ({spec['reentrant']}) was not refused: {inner_obs}")
+        elif spec["reentrant"] != "other-spinner" and inner_obs["reentry"] != "ReentryError":
+            out.violate("guard-missing", "reentry:" + spec["reentrant"] + ":wrong-exception", f"call {r}: {inner_obs}")
 
     # ---------------------------------------------------------------- invariants on return / raise
     if reactor.running or reactor._started:
